@@ -995,19 +995,20 @@ def collect_decls(root: str, base: str):
     return decls
 
 
+def corpus_collect_decls(root: str, base: str):
+    """Witnesses of repaired findings (corpus/C12/*.json, stream "collect"), re-rooted; they run with every campaign."""
+    out = []
+    for f in sorted((common.VERIF / "corpus" / "C12").glob("*.json")):
+        obj = json.loads(f.read_text())
+        if obj.get("stream") == "collect":
+            out += [dict(d, sp=d["sp"].replace("@BASE", base).replace("@ROOT", root)) for d in obj["decls"]]
+    return out
+
+
 def collect_identity(base: str, d):
     p = d["sp"] if d["sp"].startswith("/") else base + "/" + d["sp"]
     n = os.path.normpath(p)
     return ("dir", n, d["pattern"]) if d["form"] == "dirnode" else ("file", n)
-
-
-def f17_class(d, res) -> bool:
-    """A node *instance* (PathNode/PickleNode/DirectoryNode) declared with an absolute, lexically unnormalised path
-    that collection left as spelled."""
-    if d["form"] == "plain" or not d["sp"].startswith("/"):
-        return False
-    spelled = str(PurePosixPath(d["sp"]))
-    return spelled != os.path.normpath(spelled) and res.get("path") == spelled
 
 
 def check_collect(ctx, base, decls, results, count=True):
@@ -1025,11 +1026,9 @@ def check_collect(ctx, base, decls, results, count=True):
         ref = members[0]
         for i in members[1:]:
             if results[i]["sig"] != results[ref]["sig"]:
-                fid = "F17" if (f17_class(decls[i], results[i]) != f17_class(decls[ref], results[ref])
-                                or (f17_class(decls[i], results[i]) and results[i]["path"] != results[ref]["path"])) else None
                 ctx.violation(f"collect-split: {decls[ref]['form']}:{decls[ref]['sp']!r} and {decls[i]['form']}:{decls[i]['sp']!r} "
                               f"name the same {ident[0]} {ident[1]!r} but become different DAG nodes ({results[ref]['path']!r} / {results[i]['path']!r})",
-                              {"stream": "collect", "decls": [decls[ref], decls[i]]}, finding=fid)
+                              {"stream": "collect", "decls": [decls[ref], decls[i]]})   # F17 (absolute node paths) is repaired: c8f94b3
     for key, members in by_sig.items():
         ids = {collect_identity(base, decls[i]) for i in members}
         if len(ids) > 1:
@@ -1064,7 +1063,7 @@ def stream_collect(ctx):
             (base / sub).mkdir(parents=True, exist_ok=True)
         for f in ("f.txt", "d/f.txt", "d/g.txt", "e/f.txt"):
             (base / f).write_text(f)
-        decls = collect_decls(str(root), str(base))
+        decls = corpus_collect_decls(str(root), str(base)) + collect_decls(str(root), str(base))   # corpus first (F17, fixed: must pass)
         results = run_worker({"mode": "collect", "root": str(root), "base": str(base), "decls": decls}, ctx.rng.randrange(1, 2 ** 31))
     finally:
         shutil.rmtree(root, ignore_errors=True)
